@@ -28,32 +28,52 @@ open Influx.Model.Compact Influx.Spec.C04
 
 /-! ### the iterator -/
 
-/-- **C04, iterator level.**  For every set of input files (`FilesOK`: per file ascending
-    non-empty keys, well-formed fresh blocks with arbitrary tombstones, at most 20 blocks per
-    key), mode and size ≥ 1: if the model of `tsmBatchKeyIterator` + write loop returns a
-    sequence, its keys never decrease and for every key `k` the blocks written for `k`
+/-- **C04, iterator level.**  For every set of input files (`FilesOK (some 20)`: per file
+    ascending non-empty keys, well-formed fresh blocks with arbitrary tombstones, at most 20
+    blocks per key), mode and size ≥ 1: if the model of `tsmBatchKeyIterator` + write loop
+    returns a sequence, its keys never decrease and for every key `k` the blocks written for `k`
     (a) concatenate to a strictly ascending list of points — so they are ascending and do not
     overlap —, (b) hold exactly `restAt (blocksFor files k)`, the value of the last file
     (in file order) that has a non-tombstoned point at that time, and (c) are each either a
     re-encoded block of 1..size values or one of the key's input blocks forwarded as is. -/
-theorem C04_iterator {V : Type} (cfg : Cfg) (hs : 0 < cfg.size) (files : List (FileRuns V)) (ok : FilesOK files)
-    (seq : List (Key × OBlk V)) (h : compactSeq cfg files = .ok seq) :
+theorem C04_iterator {V : Type} (size : Nat) (fast : Bool) (hs : 0 < size) (files : List (FileRuns V))
+    (ok : FilesOK (some 20) files) (seq : List (Key × OBlk V))
+    (h : compactSeq { size := size, fast := fast } files = .ok seq) :
     KeysSorted seq ∧
     ∀ k, Asc (outPts (seqOf k seq)) ∧
       (∀ t, lookup (outPts (seqOf k seq)) t = restAt (blocksFor files k) t) ∧
       (∀ o ∈ seqOf k seq, OBlkOK o ∧
-        ((1 ≤ o.pts.length ∧ o.pts.length ≤ cfg.size) ∨ ∃ b0 ∈ blocksFor files k, o = passThrough b0)) := by
-  have ro := compactSeq_spec cfg hs files ok seq h
+        ((1 ≤ o.pts.length ∧ o.pts.length ≤ size) ∨ ∃ b0 ∈ blocksFor files k, o = passThrough b0)) := by
+  have ro := compactSeq_spec { size := size, fast := fast } (some 20) (stableLaw size fast) hs files ok seq h
+  refine ⟨ro.sorted, fun k => ?_⟩
+  have kt := ro.keys k
+  exact ⟨by simpa using kt.asc, fun t => by have := kt.content t; simpa using this.symm, kt.blocks⟩
+
+/-- **what would repair the second finding.**  The same iterator with an insertion sort over
+    `blocks.Less` in place of `sort.Stable` (`insertionCfg`) satisfies the iterator theorem for
+    ANY number of blocks per key (`FilesOK none`): all the proof needs from the sort is that it
+    only exchanges blocks with disjoint time ranges and leaves no block entirely before its
+    predecessor (`SortSpecAt`), which `sort.Stable` guarantees only up to 20 elements
+    (`C04_sort_stable_fails`). -/
+theorem C04_iterator_insertion_sort {V : Type} (size : Nat) (fast : Bool) (hs : 0 < size)
+    (files : List (FileRuns V)) (ok : FilesOK none files) (seq : List (Key × OBlk V))
+    (h : compactSeq (insertionCfg size fast) files = .ok seq) :
+    KeysSorted seq ∧
+    ∀ k, Asc (outPts (seqOf k seq)) ∧
+      (∀ t, lookup (outPts (seqOf k seq)) t = restAt (blocksFor files k) t) ∧
+      (∀ o ∈ seqOf k seq, OBlkOK o ∧
+        ((1 ≤ o.pts.length ∧ o.pts.length ≤ size) ∨ ∃ b0 ∈ blocksFor files k, o = passThrough b0)) := by
+  have ro := compactSeq_spec (insertionCfg size fast) none (insertionLaw size fast) hs files ok seq h
   refine ⟨ro.sorted, fun k => ?_⟩
   have kt := ro.keys k
   exact ⟨by simpa using kt.asc, fun t => by have := kt.content t; simpa using this.symm, kt.blocks⟩
 
 /-- one `merge<T>()` call preserves the per-key invariant (frontier, ascending output,
     content = target), for at most 20 remaining blocks -/
-theorem C04_merge_step {V : Type} (cfg : Cfg) {T : Int} {st st' : KSt V} {O : Pts V} {target : Int → Option V}
-    (inv : KInv T st O target) (hm : st.merged = []) (hlen : st.blocks.length ≤ 20)
-    (h : mergeStep cfg st = .ok st') : StepOut cfg.size T st st' O target :=
-  mergeStep_spec cfg inv hm hlen h
+theorem C04_merge_step {V : Type} (size : Nat) (fast : Bool) {T : Int} {st st' : KSt V} {O : Pts V}
+    {target : Int → Option V} (inv : KInv T st O target) (hm : st.merged = []) (hlen : st.blocks.length ≤ 20)
+    (h : mergeStep { size := size, fast := fast } st = .ok st') : StepOut size T st st' O target :=
+  mergeStep_spec { size := size, fast := fast } inv hm (stableLaw size fast _ (fun m hm => by cases hm; exact hlen)) h
 
 /-- `Compactor.write` roll-over: the files hold the emitted sequence in order, none is empty
     (for every block-count / size threshold) -/
